@@ -110,6 +110,19 @@ def run(ck, rng):
     # the same kind of scenarios under the race detector
     rexe = build_godriver("race")
     rs = scenarios(rng, 250 if ck.tier == "quick" else 5000, heading_share=0.4)
+    # many roots in flight while the writer / callback starts failing part-way: unsynchronised "failed" flags and the like
+    for _ in range(80 if ck.tier == "quick" else 1500):
+        nroots = rng.choice([20, 40, 80])
+        items = []
+        for r in range(nroots):
+            items += [(1, b"r%d" % r), (2, b"a"), (2, b"b")]
+        doc = spell(items, plain_spelling(items))
+        entry = rng.choice(["out-d", "out-d", "out-j", "out-dry", "walk"])
+        budget = str(rng.randint(0, len(doc))) if entry != "walk" else "-"
+        cbf = str(rng.randint(0, 3 * nroots)) if entry == "walk" else "-"
+        case = "mscn %s %d - - %s %s %d %s %s - %s 0 %s" % (entry, rng.choice([2, 4, 16]), budget, cbf, rng.choice([0, rng.randint(1, 10 ** 6)]), rng.choice("01"),
+                                                          snap_arg([(b"tgt", "d")]), hx(b"tgt"), hx(doc))
+        rs.append((case, entry, "-", "-", 1, nroots, len(doc)))
     env = dict(os.environ, GORACE="halt_on_error=1 exitcode=66")
     rimpl, rcrashes = run_impl(rexe, [s[0] for s in rs], per_case_timeout=30.0, env=env)
     for (case, entry, cancel, rfail, nbad, nroots, dl), res in zip(rs, rimpl):
